@@ -15,6 +15,7 @@
    Partial: the composition into "replica invariant preserved by verify_and_apply_proof" (byte offsets,
    storage) and Ed25519 unforgeability itself are not proved; the alteration enumeration of tools/c04.py
    covers the composition on every run. *)
+From HC Require Import AnyReopenA AnyReopenB AnyReopenC AnyReopenD AnyReopen1 AnyReopen2.
 From HC Require Import AlterRefused.
 From HC Require Import AnyProofLib AnyProofUp AnyProof.
 From HC Require AnyProofEx.
@@ -438,6 +439,154 @@ Theorem C04_upgrade_target_length_is_signed :
          cr_verify cr pk (signable (tree_hash cr (cs_roots cs)) (N.max r (s' + l')) fork) sg' = true.
 Proof. exact upgrade_target_length. Qed.
 
+Theorem C04_hash_invariant_implies_reopen_invariant :
+  forall cr : crypto,
+         (forall x : bytes, Datatypes.length (cr_hash cr x) = 32%nat) ->
+         forall bs : list bytes,
+         writer_fits bs -> forall (c : core) (d : disk), HInv cr bs c d -> HInvR cr bs c d.
+Proof. exact HInv_implies_HInvR. Qed.
+
+Theorem C04_reopen_invariant_drops_only_root_sizes :
+  forall (cr : crypto) (bs : list bytes) (c : core) (d : disk),
+         HInvR cr bs c d ->
+         (forall x : node,
+          In x (t_roots (c_tree c)) -> n_length x = n_length (TreeRef.ref_at cr bs (n_index x))) ->
+         HInv cr bs c d.
+Proof. exact HInvR_plus_root_sizes_is_HInv. Qed.
+
+Theorem C04_fresh_replica_reopen_invariant :
+  forall cr : crypto,
+         OplogFacts.crc_ok cr ->
+         (forall x : bytes, Datatypes.length (cr_hash cr x) = 32%nat) ->
+         (forall x : bytes, all_zero (cr_hash cr x) = false) ->
+         (forall x : bytes, bytes_ok (cr_hash cr x) = true) ->
+         forall bs : list bytes,
+         writer_fits bs ->
+         forall kp : keypair,
+         OplogFacts.keypair_ok kp = true ->
+         kp_secret kp = None ->
+         exists (d' : disk) (ops : list sop) (c : core),
+           core_open cr (Some kp) false disk_empty = (d', ops, Ok c) /\
+           HDInvR cr bs c d' (fun _ : N => false) /\ c_keypair c = kp /\ t_length (c_tree c) = 0.
+Proof. exact fresh_replica_HDInvR. Qed.
+
+Theorem C04_reopen_reestablishes_hash_invariant :
+  forall cr : crypto,
+         OplogFacts.crc_ok cr ->
+         (forall x : bytes, Datatypes.length (cr_hash cr x) = 32%nat) ->
+         (forall x : bytes, all_zero (cr_hash cr x) = false) ->
+         (forall x : bytes, bytes_ok (cr_hash cr x) = true) ->
+         forall bs : list bytes,
+         writer_fits bs ->
+         forall (c : core) (d : disk) (H : N -> bool),
+         HDInvR cr bs c d H ->
+         exists c' : core,
+           core_open cr None true d = (d, [], Ok c') /\
+           HDInvR cr bs c' d H /\
+           t_length (c_tree c') = t_length (c_tree c) /\
+           c_keypair c' = c_keypair c /\
+           c_oplog c' = c_oplog c /\
+           (forall i : N, core_has c' i = core_has c i) /\
+           hd_contig (c_header c') = hd_contig (c_header c) /\ c_skip c' = 0.
+Proof. exact reopen_reestablishes_invariant. Qed.
+
+Theorem C04_any_outcome_keeps_reopen_invariant :
+  forall cr : crypto,
+         (forall x : bytes, Datatypes.length (cr_hash cr x) = 32%nat) ->
+         (forall x : bytes, all_zero (cr_hash cr x) = false) ->
+         forall bs : list bytes,
+         writer_fits bs ->
+         forall (f : option bool) (pf : proof) (c : core) (w : world) (c' : core) (w' : world) (r : res bool),
+         HInvR cr bs c (w_disk w) ->
+         proof_wire pf ->
+         core_apply_proof cr f pf c w = (c', w', r) ->
+         r = Ok true /\ HInvR cr bs c' (w_disk w') \/
+         c' = c /\ w' = w /\ ReplicaCorA.unchanged_outcome cr pf c w r \/
+         r = Panic frame_msg /\ HInvR cr bs c' (w_disk w') \/
+         some_collision cr \/ forged_signature cr bs (kp_public (c_keypair c)).
+Proof. exact apply_anyR_outcome. Qed.
+
+Theorem C04_any_outcome_keeps_reopen_invariant_on_disk :
+  forall cr : crypto,
+         OplogFacts.crc_ok cr ->
+         (forall x : bytes, Datatypes.length (cr_hash cr x) = 32%nat) ->
+         (forall x : bytes, all_zero (cr_hash cr x) = false) ->
+         (forall x : bytes, bytes_ok (cr_hash cr x) = true) ->
+         forall bs : list bytes,
+         writer_fits bs ->
+         forall (f : option bool) (pf : proof) (c : core) (w : world) (H : N -> bool) 
+           (c' : core) (w' : world) (r : res bool),
+         HDInvR cr bs c (w_disk w) H ->
+         proof_wireS pf ->
+         core_apply_proof cr f pf c w = (c', w', r) ->
+         r = Ok true /\
+         HDInvR cr bs c' (w_disk w') (ReplicaDisk3.hold H (p_block pf)) /\
+         c_keypair c' = c_keypair c /\
+         t_length (c_tree c) <= t_length (c_tree c') /\
+         (forall b : data_block,
+          p_block pf = Some b -> db_value b = TreeRef.blk bs (db_index b) /\ db_index b < t_length (c_tree c')) \/
+         c' = c /\ w' = w /\ ReplicaCorA.unchanged_outcome cr pf c w r \/
+         r = Panic frame_msg /\ c' = c /\ HDInvR cr bs c' (w_disk w') H \/
+         some_collision cr \/ forged_signature cr bs (kp_public (c_keypair c)).
+Proof. exact apply_any_outcome_keeps_HDInvR. Qed.
+
+Theorem C04_reopen_invariant_content :
+  forall (cr : crypto) (bs : list bytes) (c : core) (d : disk),
+         HInvR cr bs c d ->
+         let t := c_tree c in
+         let r := t_length t in
+         i_length (core_info c) = r /\
+         r <= N.of_nat (Datatypes.length bs) /\
+         i_fork (core_info c) = 0 /\
+         signed_by_writer cr bs (signable (tree_hash cr (TreeRef.ref_roots cr bs r)) r 0) /\
+         map n_index (t_roots t) = map n_index (TreeRef.ref_roots cr bs r) /\
+         map n_hash (t_roots t) = map n_hash (TreeRef.ref_roots cr bs r) /\
+         i_byte_length (core_info c) = NoPanic.lens (t_roots t) /\
+         ((forall x : node, In x (t_roots t) -> n_length x = n_length (TreeRef.ref_at cr bs (n_index x))) ->
+          i_byte_length (core_info c) = TreeRef.prefix_size bs r) /\
+         (forall (j : N) (nd : node),
+          required_node t (d_tree d) j = Ok nd ->
+          n_index nd = j /\ n_hash nd = n_hash (TreeRef.ref_at cr bs j) /\ in_len r j).
+Proof. exact HInvR_content. Qed.
+
+Theorem C04_any_history_with_reopen_sound :
+  forall cr : crypto,
+         OplogFacts.crc_ok cr ->
+         (forall x : bytes, Datatypes.length (cr_hash cr x) = 32%nat) ->
+         (forall x : bytes, all_zero (cr_hash cr x) = false) ->
+         (forall x : bytes, bytes_ok (cr_hash cr x) = true) ->
+         forall bs : list bytes,
+         writer_fits bs ->
+         forall (ops : list hop) (c : core) (w : world) (H : N -> bool) (c' : core) (w' : world),
+         HDInvR cr bs c (w_disk w) H ->
+         Forall hop_ok ops ->
+         run_hops cr ops c w = (c', w') ->
+         (exists H' : N -> bool, HDInvR cr bs c' (w_disk w') H' /\ hist_rel c H c' H') \/
+         some_collision cr \/ forged_signature cr bs (kp_public (c_keypair c)).
+Proof. exact any_history_with_reopen_sound. Qed.
+
+Theorem C04_any_history_with_reopen_content :
+  forall cr : crypto,
+         OplogFacts.crc_ok cr ->
+         (forall x : bytes, Datatypes.length (cr_hash cr x) = 32%nat) ->
+         (forall x : bytes, all_zero (cr_hash cr x) = false) ->
+         (forall x : bytes, bytes_ok (cr_hash cr x) = true) ->
+         forall bs : list bytes,
+         writer_fits bs ->
+         forall (ops pre post : list hop) (c : core) (w : world) (H : N -> bool) (c' : core) (w' : world),
+         HDInvR cr bs c (w_disk w) H ->
+         Forall hop_ok ops ->
+         ops = pre ++ post ->
+         run_hops cr pre c w = (c', w') ->
+         (exists H' : N -> bool,
+            c04_content cr bs c' (w_disk w') H' /\
+            hist_rel c H c' H' /\
+            (exists c2 : core,
+               core_open cr None true (w_disk w') = (w_disk w', [], Ok c2) /\
+               t_length (c_tree c2) = t_length (c_tree c') /\ (forall i : N, core_has c2 i = core_has c' i))) \/
+         some_collision cr \/ forged_signature cr bs (kp_public (c_keypair c)).
+Proof. exact any_history_with_reopen_content. Qed.
+
 Print Assumptions C04_block_value_sound.
 Print Assumptions C04_climb_sound.
 Print Assumptions C04_leaf_hash_binds.
@@ -484,3 +633,12 @@ Print Assumptions AlterRefused.sc_block_alterations_refused.
 Print Assumptions AlterRefused.sc_bu_alterations_refused.
 Print Assumptions AlterRefused.sc_upgrade_structural_alterations.
 Print Assumptions AlterRefused.sc_honest_accepted.
+Print Assumptions C04_hash_invariant_implies_reopen_invariant.
+Print Assumptions C04_reopen_invariant_drops_only_root_sizes.
+Print Assumptions C04_fresh_replica_reopen_invariant.
+Print Assumptions C04_reopen_reestablishes_hash_invariant.
+Print Assumptions C04_any_outcome_keeps_reopen_invariant.
+Print Assumptions C04_any_outcome_keeps_reopen_invariant_on_disk.
+Print Assumptions C04_reopen_invariant_content.
+Print Assumptions C04_any_history_with_reopen_sound.
+Print Assumptions C04_any_history_with_reopen_content.
